@@ -143,21 +143,15 @@ def run(tier, seed):
     # scale / reference value, decoded one after the other by the one decoder object the other stages share
     vs = gmsg.QUICK_VERSIONS + [16, 37] if tier == 'quick' else rtables.available_master_versions()
     n_pairs = 0
-    for i, v1 in enumerate(vs):
-        for v2 in vs[i + 1:]:
-            for e in gpool.version_diff_elements(min(v1, v2), max(v1, v2))[:6]:
-                for order in ((v1, v2), (v2, v1)):
-                    for v in order:
-                        meta = frame.default_meta(4)
-                        meta.update({'master_table_version': v, 'n_subsets': 1, 'is_compressed': False})
-                        w = gpool.pool_for(v).tables.B[e].nbits
-                        case = gmsg.case_from_raws(meta, [e, e], subsets=[[1, (1 << w) - 2]])
-                        out = check_case(case)
-                        rep.add_case(case.key(), True, ['same_element_in_two_table_versions'], None)
-                        for clause, detail in out.failures:
-                            rep.add_failure('table versions: ' + clause, dict(detail, decoded_before=list(order)), case.to_json(),
-                                            stage='table versions')
-                n_pairs += 1
+    for tag, cases in gmsg.version_twin_runs(vs, 4 if tier == 'quick' else 6):
+        for case in cases:
+            out = check_case(case)
+            rep.add_case(case.key(), True, ['same_element_in_two_table_versions'] +
+                         (['same_element_under_marker_in_two_table_versions'] if tag.startswith('marker') else []), None)
+            for clause, detail in out.failures:
+                rep.add_failure('table versions: ' + clause, dict(detail, decoded_in_this_order=tag), case.to_json(),
+                                stage='table versions')
+        n_pairs += 1
     rep.extra['table_version_twins'] = n_pairs
     # corpus
     stride = 20 if tier == 'quick' else 1
